@@ -29,6 +29,31 @@ func C17_Parse() {
 	}
 }
 
+// C17_ParseStruct: the same on the element-structured inputs (SHAPE).
+func C17_ParseStruct() {
+	s := structInput()
+	_, err := ParseVector(s)
+	n := verif.Allocs(func() { _, sinkE = ParseVector(s) })
+	if err == nil {
+		verif.Assert(n <= 1, "successful ParseVector performs at most one allocation")
+	}
+}
+
+// C17_ParseAfterReject: steady state includes rejected inputs: a successful
+// ParseVector that follows a rejected one still performs at most one
+// allocation (a scratch buffer taken from a pool and not given back on an
+// error path would make the next call allocate a new one).
+func C17_ParseAfterReject() {
+	bad := shapedInputP("x")
+	good := shapedInput()
+	_, e1 := ParseVector(bad)
+	_, e2 := ParseVector(good)
+	n := verif.AllocsAfter(func() { _, sinkE = ParseVector(bad) }, func() { _, sinkE = ParseVector(good) })
+	if e1 != nil && e2 == nil {
+		verif.Assert(n <= 1, "a successful ParseVector after a rejected one performs at most one allocation")
+	}
+}
+
 // C17_GetSet: Get and Set on a known metric (legal or illegal value) do not allocate.
 func C17_GetSet() {
 	var c CVSS
